@@ -65,6 +65,8 @@ structure Env where
   verify : VC → Bool
   /-- the injected `Sign` returns an error (key store outage) although `ResolveKey` worked -/
   signFails : Bool := false
+  /-- the status list endpoint of the node with this base URL cannot be reached (transport failure) -/
+  down : String → Bool := fun _ => false
 
 structure PageRow where          -- table status_list (credentialIssuerRecord); `lock` = row lock owner (thread id)
   id : Url
@@ -527,7 +529,8 @@ def download (E : Env) (w0 : World) (u : Url) : Fetch × World :=
   let w : World := { w0 with log := w0.log ++ [u] }
   match u with
   | .sl base issuer page =>
-    if base == w.a.base then
+    if E.down base then (.fail, w)
+    else if base == w.a.base then
       match credential E w.now w.a issuer page with
       | .ok (vc, n) => (.vc vc, { w with a := n })
       | _ => (.fail, w)
